@@ -137,6 +137,8 @@ class Device:
         self.mod = f"d_{fe}_{gi}"
         self.regs = [(f"RegOwn{tag(o)}", o) for o in OPT]
         self.refs = [(f"Ref{tag(t)}To{'Keep' if o is None else tag(o)}", f"RegOwn{tag(t)}", t, o) for t in OPT for o in OPT]
+        # registers nobody refers to (the RegOwn* ones are all re-opened by some ref that overrides the access)
+        self.lone = [(f"LoneOwn{tag(o)}", o) for o in OPT]
         self.bufs = [(f"BufOwn{tag(o)}", o) for o in OPT]
         self.fields = [(f"f_{tag(o).lower()}", o) for o in OPT]
         self.only = only   # replay: restrict to the objects one probe needs
@@ -159,6 +161,10 @@ class Device:
         for name, target, _t, o in self.refs:
             acc = f" type Access = {o};" if o else ""
             L.append(f"ref {name} = register {target} {{ const ADDRESS = {addr};{acc} }},")
+            addr += 1
+        for name, own in self.lone:
+            acc = f" type Access = {own};" if own else ""
+            L.append(f"register {name} {{{acc} const ADDRESS = {addr}; const SIZE_BITS = 8; v: RW uint = 0..8, }},")
             addr += 1
         for i, (name, own) in enumerate(self.bufs):
             L.append(f"buffer {name}{': ' + own if own else ''} = {i},")
@@ -190,6 +196,13 @@ class Device:
             if o:
                 ov["access"] = o
             d[name] = {"type": "ref", "target": target, "override": ov}
+            addr += 1
+        for name, own in self.lone:
+            r = {"type": "register", "address": addr, "size_bits": 8,
+                 "fields": {"v": {"base": "uint", "access": "RW", "start": 0, "end": 8}}}
+            if own:
+                r["access"] = own
+            d[name] = r
             addr += 1
         for i, (name, own) in enumerate(self.bufs):
             b = {"type": "buffer", "address": i}
@@ -294,7 +307,14 @@ def enumerate_probes(devices, ops):
         for fname, own in d.fields:
             for n in ("get", "set"):
                 P.append(dict(dev=d, kind="Fld", obj=fname, method=fname, own=own, refov=None, is_ref=False,
-                              gdef=d.gfield, op=n))
+                              gdef=d.gfield, op=n, fs="Fld"))
+        # the RW field `v` of every register, whatever the REGISTER's access is (own / global default, with refs that
+        # keep or override it): a field's accessors follow the field's access alone (seed C17-5 pruned the setters of
+        # registers that nobody can write)
+        for name, own in d.regs + d.lone:
+            for n in ("get", "set"):
+                P.append(dict(dev=d, kind="Fld", obj=f"{name}.v", method="v", own="RW", refov=None, is_ref=False,
+                              gdef=d.gfield, op=n, fs=name))
     for i, p in enumerate(P):
         p["id"] = f"probe_{i:04d}"
         p["placement"] = placement(p["dev"].fe, p["kind"], p["own"], p["refov"], p["is_ref"], p["gdef"])
@@ -305,9 +325,9 @@ def probe_source(p):
     m = p["dev"].mod
     if p["kind"] == "Fld":
         if p["op"] == "get":
-            body = [f"let r = {m}::field_sets::Fld::new();", f"let _ = r.{p['method']}();"]
+            body = [f"let r = {m}::field_sets::{p['fs']}::new();", f"let _ = r.{p['method']}();"]
         else:
-            body = [f"let mut r = {m}::field_sets::Fld::new();", f"r.set_{p['method']}(1);"]
+            body = [f"let mut r = {m}::field_sets::{p['fs']}::new();", f"r.set_{p['method']}(1);"]
         is_async = False
     else:
         is_async, tmpl = OP_CALLS[(p["kind"], p["op"])]
@@ -554,7 +574,7 @@ def rejection_reason(p, rec):
     msg = rec["message"]
     if p["kind"] == "Fld":
         want = p["method"] if p["op"] == "get" else "set_" + p["method"]
-        if rec["code"] == "E0599" and re.match(r"no method named `%s` found for struct `[a-z_0-9:]*Fld`" % want, msg):
+        if rec["code"] == "E0599" and re.match(r"no method named `%s` found for struct `[a-z_0-9:]*%s`" % (want, p["fs"]), msg):
             return "accessor-not-generated"
         return "other"
     opname = p["op"].split("::")[-1]
